@@ -621,11 +621,17 @@ impl Property for C03 {
     fn id(&self) -> &'static str { "C03" }
     fn runs(&self, tier: Tier) -> u64 { match tier { Tier::Quick => 12000, Tier::Thorough => 250000 } }
     fn gen_plan(&self, seed: u64, tier: Tier) -> Value {
+        // one plan in ten: early response / backend loss during an upload whose remaining body bytes spell requests (c03_early.rs)
+        // (SIMK_C03_FAMILY=early: development aid, every seed goes to that family)
+        if Prng::derive(seed, "c03/family-early").below(10) == 0 || std::env::var("SIMK_C03_FAMILY").map_or(false, |f| f == "early") { return serde_json::to_value(super::c03_early::generate(seed, tier)).unwrap(); }
         // one plan in eight: HTTP/2 request whose content-length disagrees with its DATA frames (c03_h2.rs)
         if Prng::derive(seed, "c03/family").below(8) == 0 { return serde_json::to_value(super::c03_h2::generate(seed, tier)).unwrap(); }
         serde_json::to_value(generate(seed, tier)).unwrap()
     }
     fn run_plan(&self, plan: &Value) -> RunReport {
+        if plan.get("early").is_some() {
+            return match serde_json::from_value::<super::c03_early::EarlyPlan>(plan.clone()) { Ok(p) => super::c03_early::run(&p, false).0, Err(e) => RunReport { harness_error: Some(format!("bad plan: {e}")), ..Default::default() } };
+        }
         if plan.get("mux").is_some() {
             return match serde_json::from_value::<super::c03_h2::H2ClPlan>(plan.clone()) { Ok(p) => super::c03_h2::run(&p, false).0, Err(e) => RunReport { harness_error: Some(format!("bad plan: {e}")), ..Default::default() } };
         }
@@ -693,6 +699,7 @@ impl Property for C03 {
         rep
     }
     fn shrink(&self, plan: &Value) -> Vec<Value> {
+        if plan.get("early").is_some() { return serde_json::from_value::<super::c03_early::EarlyPlan>(plan.clone()).map(|p| super::c03_early::shrink(&p).into_iter().map(|q| serde_json::to_value(q).unwrap()).collect()).unwrap_or_default(); }
         if plan.get("mux").is_some() { return vec![]; }
         let Ok(p) = serde_json::from_value::<Plan>(plan.clone()) else { return vec![] };
         let mut out: Vec<Plan> = Vec::new();
@@ -739,6 +746,7 @@ impl Property for C03 {
         out.into_iter().map(|q| serde_json::to_value(q).unwrap()).collect()
     }
     fn debug_plan(&self, plan: &Value) -> String {
+        if plan.get("early").is_some() { let p: super::c03_early::EarlyPlan = serde_json::from_value(plan.clone()).unwrap(); return super::c03_early::run(&p, true).1; }
         if plan.get("mux").is_some() { let p: super::c03_h2::H2ClPlan = serde_json::from_value(plan.clone()).unwrap(); return super::c03_h2::run(&p, true).1; }
         let p: Plan = serde_json::from_value(plan.clone()).unwrap();
         let mut s = format!("{}\n", summarize(&p));
@@ -770,11 +778,11 @@ impl Property for C03 {
     fn descr(&self) -> Descr {
         Descr {
             level: "exploration",
-            rule: "seeded plans: 1-2 clients (own connections, shared backend) each send a byte stream of 1-4 elements from a grammar: valid seeds (GET/HEAD/OPTIONS/DELETE/POST/PUT/PATCH, Content-Length and chunked bodies incl. trailers, absolute-form, Expect: 100-continue, cookies, complete requests hidden inside CL / chunked bodies) with, in 6 plans of 8, one element per connection replaced by one of 104 mutation operators (20 Content-Length, 31 Transfer-Encoding variants x 5 body shapes incl. classic CL.TE / TE.CL with a hidden request, 15 chunk-syntax, 16 target/Host, 10 request-line, 9 header-block, 3 connection tricks) or one of the 13 attack strings of e2e h1_security_tests; 1 plan in 8 is all valid; 1 plan in 8 carries the known trigger (bytes sent right behind a request without Content-Length/Transfer-Encoding) and the generator cuts every other stream so that it does not. Every plan is delivered twice with the same bytes: different write quanta (1 byte .. everything), pauses, socket buffer sizes, epoll truncation/permutation, preemption points and injected short writes/EAGAIN, pipelined or sequential, over kept-alive backend connections. Non-trivial = in both deliveries at least one request reached the backend or sozu answered itself; distinct = distinct (trace hashes of both deliveries + outcome digests)",
+            rule: "seeded plans: 1-2 clients (own connections, shared backend) each send a byte stream of 1-4 elements from a grammar: valid seeds (GET/HEAD/OPTIONS/DELETE/POST/PUT/PATCH, Content-Length and chunked bodies incl. trailers, absolute-form, Expect: 100-continue, cookies, complete requests hidden inside CL / chunked bodies) with, in 6 plans of 8, one element per connection replaced by one of 104 mutation operators (20 Content-Length, 31 Transfer-Encoding variants x 5 body shapes incl. classic CL.TE / TE.CL with a hidden request, 15 chunk-syntax, 16 target/Host, 10 request-line, 9 header-block, 3 connection tricks) or one of the 13 attack strings of e2e h1_security_tests; 1 plan in 8 is all valid; 1 plan in 8 carries the known trigger (bytes sent right behind a request without Content-Length/Transfer-Encoding) and the generator cuts every other stream so that it does not. Every plan is delivered twice with the same bytes: different write quanta (1 byte .. everything), pauses, socket buffer sizes, epoll truncation/permutation, preemption points and injected short writes/EAGAIN, pipelined or sequential, over kept-alive backend connections. One plan in ten is of the family early_response (c03_early.rs): one upload by Content-Length or chunked, HTTP/1.1 or HTTP/2-over-TLS frontend, whose HTTP/1.1 backend answers (any status; keep-alive, announced close, silent close) or dies once it has read the head plus k body bytes, while the body bytes still to come spell one or two complete requests with marker paths; the client sends the rest after the answer, regardless of it, or (HTTP/2) resets the stream, then a genuine follow-up; non-trivial there = the backend acted before the end of the request. Non-trivial = in both deliveries at least one request reached the backend or sozu answered itself; distinct = distinct (trace hashes of both deliveries + outcome digests)",
             assumptions: vec!["AF_UNIX stream sockets stand in for TCP", "release semantics (debug assertions off)", "the reference reader implements RFC 9112 §2-7 / RFC 9110 §5, §8.6 as written; where the RFC defines a recovery for intermediaries (TE over CL, identical repeated CL, absolute-form over Host) the recovered reading is the expected one", "the backend answers every request it frames with its own (lenient) reader; the verdict uses only the strict reader on the recorded raw bytes"],
             real: vec!["sozu_lib::server::Server::run (whole worker: mux H1 front and back, kawa parser and converter, editor, router, answers, timers)", "mio", "Linux epoll + AF_UNIX"],
             stub: vec!["IP network", "clock", "entropy", "clients", "backends", "master process (scripted stub)"],
-            not_covered: vec!["HTTP/2 frontends / backends (header lists, pseudo-headers, content-length vs DATA)", "TLS frontends", "sozu's access-log account R_s (the pairing of backend requests with client-visible 200 answers by id is used instead)", "body provenance of requests forwarded after the reject point (only strictness, decoration, header provenance and pairing are checked there)", "responses (backend->client direction) — see C01"],
+            not_covered: vec!["HTTP/2 frontends / backends (header lists, pseudo-headers, content-length vs DATA)", "TLS frontends", "sozu's access-log account R_s (the pairing of backend requests with client-visible 200 answers by id is used instead)", "body provenance of requests forwarded after the reject point (only strictness, decoration, header provenance and pairing are checked there)", "responses (backend->client direction) — see C01", "early_response family: h2c backends, H1-over-TLS frontends, Expect: 100-continue uploads, early answers that are themselves cut (C02), interim 1xx before the early answer, several uploads in flight on one HTTP/2 connection"],
         }
     }
 }
